@@ -112,7 +112,7 @@ Proof. vm_compute. reflexivity. Qed.
 
    3. Seeded change C08-5: the supplied text is compared at a 64 bit mantissa (exact for short
       decimals), the bounds stay the float64 roundings of the tag text.
-   4. F32 (unchanged code, repaired): a float32 field read from a string had its value rounded to
+   4. F33 (unchanged code, repaired): a float32 field read from a string had its value rounded to
       float32 and widened, the bounds rounded to float64.
 
    [near_grid k] = to the nearest multiple of 2^-k: float64 around 0.3 is k = 54, around 0.1 is
@@ -135,7 +135,7 @@ Theorem bounds_rounded_complete_refuted :
   exists r d, in_range r d = true /\ bounds_rounded_check 55 r d = false.
 Proof. exists r_01_1, d01. vm_compute. split; reflexivity. Qed.
 
-(* F32: value at the float32 grid, bounds at the float64 grid *)
+(* F33: value at the float32 grid, bounds at the float64 grid *)
 Definition f32_string_check (kv kb : Z) (r : range) (d : dec) : bool :=
   in_range (round_range (near_grid kb) r) (near_grid kv d).
 
